@@ -259,9 +259,10 @@ class PythonRegex(regex.Regex):
     def _preprocess_negation(bracket_content):
         if not bracket_content or bracket_content[0] != "^":
             return bracket_content
-        # We inverse everything
-        excluded = set(bracket_content)
-        for symbol in bracket_content:
+        # We inverse everything (the leading "^" is the negation marker, not
+        # a member of the set)
+        excluded = set(bracket_content[1:])
+        for symbol in bracket_content[1:]:
             if len(symbol) == 2 and symbol[0] == "\\":
                 # An escaped character excludes the character itself
                 excluded.add(TRANSFORMATIONS.get(symbol[1], symbol[1]))
